@@ -222,6 +222,9 @@ MUTANTS: Dict[str, List[M]] = {
         ('NOT_ACCEPTED cmp', "_parameter_resolvers.py", '            if len(params) < non_get_pop_count:\n                defaults', '            if len(params) <= non_get_pop_count:\n                defaults', 'C13.i'),
         ('unconditional cmp', "_parameter_resolvers.py", 'if len(params) >= non_get_pop_count and', 'if len(params) > non_get_pop_count and', 'C13.i'),
         ('pop counted as branch', "_parameter_resolvers.py", '        if not (params[0].origin or "").startswith(param_kwargs_pop_or_get):  # type: ignore[union-attr]\n            non_get_pop_count += 1', '        non_get_pop_count += 1', 'C13.i'),
+        ("default nodes ignore keyword-only parameters again (F56)", "_parameter_resolvers.py", "        arg_nodes = arg_nodes + node.kwonlyargs\n        default_nodes = default_nodes + node.kw_defaults\n", "", "C13.d"),
+        ("positional-only names paired after the ordinary ones", "_parameter_resolvers.py", 'arg_nodes = getattr(node, "posonlyargs", []) + node.args', 'arg_nodes = node.args + getattr(node, "posonlyargs", [])', "C13.d"),
+        ("defaults left-aligned", "_parameter_resolvers.py", "default_nodes = [None] * (len(arg_nodes) - len(node.defaults)) + node.defaults", "default_nodes = node.defaults + [None] * (len(arg_nodes) - len(node.defaults))", "C13.d"),
     ],
     "C14": [
         ("stale dict_kwargs kept on the command line path", "_typehints.py", '                    prev_val.pop("dict_kwargs", None)  # Namespace.update merges by leaf', '                    pass  # Namespace.update merges by leaf', "C14.e"),
